@@ -1,4 +1,5 @@
-/* C03 reproducer (NOT run by ./check): qthread_syncvar_fill / _empty / _writeF called from a non-qthread pthread go through
+/* C03 stand-alone reproducer of two defects since fixed in /repo (a562144, b527f88); NOT run by ./check, whose regression for
+ * them is corpus/C03/06_external_callers.txt.  Original description: qthread_syncvar_fill / _empty / _writeF called from a non-qthread pthread go through
  * qthread_syncvar_nonblocker_func, which forks a task with a pointer to its own stack frame and returns at once.
  * Build: like the c03 harness (white-box include of syncvar.c not needed; links the plain library).
  * Run with QT_NUM_SHEPHERDS=1 QT_NUM_WORKERS_PER_SHEPHERD=1: the only worker is kept busy (no yield) until the external
